@@ -1,2 +1,136 @@
-(* C12 -- property theorems (see Proofs.v for the lemmas). *)
-From SV Require Import Lib.Base C12.Url C12.Model.
+(* C12 -- Document graphs load completely, once, or not at all.
+   Property theorems only; the lemmas are in Proofs.v.  Every theorem
+   quantifies over ALL worlds: any finite set of documents (WSDL or schema
+   documents with any references between them -- cycles, self references,
+   diamonds, dangling and relative locations -- or ill-formed bytes), any
+   split between document store and transport, any caching policy. *)
+From SV Require Import Lib.Base C12.Url C12.Model C12.Proofs.
+
+(* Loading terminates: the fuel the model gives itself (number of documents
+   + 1 for the WSDL loader, number of import/include elements + 1 for each
+   schema collection) is never exhausted, whatever the graph.  The cache may
+   hold anything earlier loads can have put there. *)
+Theorem load_terminates : forall W root ocache i,
+  cache_sound W (i_dcache i) ->
+  fst (fst (client_load W root ocache i)) <> OutOfFuel.
+Proof. exact client_terminates_l. Qed.
+Print Assumptions load_terminates.
+
+(* The document store is consulted before the transport, for every request
+   of every load: in the request log a transport request for u directly
+   follows a store request for u, and only when the store does not hold u. *)
+Theorem store_before_transport : forall W root ocache i,
+  sbt W (i_log i) = true ->
+  sbt W (i_log (snd (fst (client_load W root ocache i)))) = true.
+Proof. exact client_sbt_l. Qed.
+Print Assumptions store_before_transport.
+
+(* Nothing incomplete is cached: whatever happens during a load (also when a
+   fetch fails half way), every document in the cache afterwards is
+   well-formed and is what the source serves under that URL. *)
+Theorem cache_complete : forall W root ocache i,
+  cache_sound W (i_dcache i) ->
+  cache_sound W (i_dcache (snd (fst (client_load W root ocache i)))).
+Proof. exact client_sound_l. Qed.
+Print Assumptions cache_complete.
+
+(* With a healthy source the content of a (sound) document cache does not
+   change what a load constructs. *)
+Theorem cache_transparent : forall W root a b,
+  w_fault W = None -> cache_sound W (i_dcache a) -> cache_sound W (i_dcache b) ->
+  fst (load_root io (opn_c W) (docs_of W) root a) = fst (load_root io (opn_c W) (docs_of W) root b).
+Proof. exact load_transparent_l. Qed.
+Print Assumptions cache_transparent.
+
+(* Failure atomicity, for every graph, every k and both kinds of failure:
+   when the k-th fetch of a load raises or returns ill-formed bytes, the
+   construction raises, no WSDL object is cached, the document cache holds
+   complete documents only, and a retry on that cache against the healthy
+   source constructs exactly what a clean first load constructs. *)
+Theorem failure_atomic : forall docs pol k fk root,
+  let Wf := mkWorld docs pol (Some (k, fk)) in
+  let Wh := mkWorld docs pol None in
+  let r := client_load Wf root false io0 in
+  i_fired (snd (fst r)) = true ->
+  (forall x, fst (fst r) <> Ok x) /\ snd r = false /\
+  cache_sound Wh (i_dcache (snd (fst r))) /\
+  fst (load_root io (opn_c Wh) (docs_of Wh) root (mkIO [] [] (i_dcache (snd (fst r))) 0 false))
+  = fst (load_root io (opn_c Wh) (docs_of Wh) root io0).
+Proof. exact failure_atomic_l. Qed.
+Print Assumptions failure_atomic.
+
+(* Each document is fetched at most once per memo domain, in every graph:
+   the store requests of a load, tagged with the memo that asked
+   (imported_definitions, or the loaded_schemata of one build_schema), are
+   pairwise different.  (The same URL may be fetched once on behalf of each
+   of several WSDL documents' schema collections: those memos are separate
+   dictionaries in the code.) *)
+Theorem fetch_once : forall W root ocache i,
+  i_reqs i = [] -> i_log i = [] ->
+  NoDup (fetches (i_log (snd (fst (client_load W root ocache i))))).
+Proof. exact client_once_l. Qed.
+Print Assumptions fetch_once.
+
+(* Only reachable documents are fetched.  As a statement about every fetch
+   this is FALSE of the loader as it is written (see the witness below: a
+   schema root brought in by wsdl:import is built with the importing WSDL's
+   URL as base).  What holds for every graph: every fetch made on behalf of
+   imported_definitions (the root and all wsdl:import targets, WSDL or
+   schema documents) is of a document reachable from the root. *)
+Theorem fetch_reachable_only_partial : forall W root ocache i,
+  cache_sound W (i_dcache i) -> i_reqs i = [] -> i_log i = [] ->
+  forall v, In (DomW, v) (fetches (i_log (snd (fst (client_load W root ocache i))))) ->
+  reach W root v.
+Proof. exact wsdl_fetches_reachable_l. Qed.
+Print Assumptions fetch_reachable_only_partial.
+
+(* the witness (KNOWN_FINDINGS: C12:wsdl-import-xsd-relative-base):
+   http://h/a/r imports ../b/x which includes y -> http://h/a/y is requested *)
+Definition rf_r : str := [104;116;116;112;58;47;47;104;47;97;47;114]%N.
+Definition rf_x : str := [104;116;116;112;58;47;47;104;47;98;47;120]%N.
+Definition rf_y : str := [104;116;116;112;58;47;47;104;47;98;47;121]%N.
+Definition rf_bad : str := [104;116;116;112;58;47;47;104;47;97;47;121]%N.
+Definition rf_docs : list (str * (bool * doc)) :=
+  [(rf_r, (false, DWsdl [[46;46;47;98;47;120]%N] []));
+   (rf_x, (false, DXsd (mkX (Some 1%N) [XInc [121]%N])));
+   (rf_y, (false, DXsd (mkX (Some 1%N) [])))].
+Theorem fetch_reachable_only_refuted : exists W root v,
+  In v (map ev_url (i_log (snd (fst (client_load W root false io0))))) /\ ~ reach W root v.
+Proof.
+  exists (mkWorld rf_docs 0 None), rf_r, rf_bad. split.
+  - vm_compute. auto.
+  - intro H. apply reach_mentioned in H. vm_compute in H. discriminate.
+Qed.
+Print Assumptions fetch_reachable_only_refuted.
+
+(* non-vacuity: a root WSDL importing a schema document that includes itself;
+   the second fetch fails; policy 0.  The fault fires, the root document is
+   cached, the load raises. *)
+Definition ex_root : str := [104;116;116;112;58;47;47;104;47;114]%N.      (* http://h/r *)
+Definition ex_x : str := [104;116;116;112;58;47;47;104;47;120]%N.         (* http://h/x *)
+Definition ex_docs : list (str * (bool * doc)) :=
+  [(ex_root, (true, DWsdl [ex_x] [])); (ex_x, (false, DXsd (mkX (Some 1%N) [XInc ex_x])))].
+Example failure_atomic_nonvacuous :
+  let r := client_load (mkWorld ex_docs 0 (Some (1, FGarbage))) ex_root false io0 in
+  i_fired (snd (fst r)) = true /\ fst (fst r) = Raised 1 /\
+  map fst (i_dcache (snd (fst r))) = [ex_root] /\
+  fst (fst (client_load (mkWorld ex_docs 0 None) ex_root false io0)) = Ok tt.
+Proof. vm_compute. repeat split. Qed.
+
+(* non-vacuity of termination / fetch_once: two WSDLs importing each other,
+   the root's inline schema includes a schema document that includes
+   itself.  The load succeeds; the schema document is fetched twice, once
+   for each WSDL's schema collection (the importee builds the importer's
+   inline schema too: KNOWN_FINDINGS C12:wsdl-cycle-inline-schemas-built-by-importee). *)
+Definition cy_r : str := [104;116;116;112;58;47;47;104;47;114]%N.
+Definition cy_w : str := [104;116;116;112;58;47;47;104;47;119]%N.
+Definition cy_x : str := [104;116;116;112;58;47;47;104;47;120]%N.
+Definition cy_docs : list (str * (bool * doc)) :=
+  [(cy_r, (true, DWsdl [cy_w] [[mkX (Some 1%N) [XInc cy_x]]]));
+   (cy_w, (false, DWsdl [cy_r] []));
+   (cy_x, (false, DXsd (mkX (Some 1%N) [XInc cy_x])))].
+Example cycle_nonvacuous :
+  let r := client_load (mkWorld cy_docs 1 None) cy_r false io0 in
+  fst (fst r) = Ok tt /\ snd r = true /\
+  fetches (rev (i_log (snd (fst r)))) = [(DomW, cy_r); (DomW, cy_w); (DomS cy_w, cy_x); (DomS cy_r, cy_x)].
+Proof. vm_compute. repeat split. Qed.
